@@ -62,6 +62,7 @@ def judge_tx(case, obs):
         v.bucket("unsigned-decoded")
     sig = r["sig"]
     rr, ss, par = int(sig["r"], 16), int(sig["s"], 16), sig["parity"]
+    txgen.sig_shape_buckets(v, rr, ss)
     tail = [reftx.legacy_v(tx.get("chainId"), par) if tx["kind"] == reftx.LEGACY else par, rr, ss]
     signed = bytes.fromhex(r["signed"])
     if _strict_fields(v, "signed encoding", signed, tx["kind"], _items(f + tail), cls) is not None:
@@ -175,6 +176,12 @@ def gen(shard, rng, tier):
             tx["data"] = rand_bytes(rng, n)
             yield from _mk(rng, tx, "calldata")
     elif name == "single-bytes":
+        for e in txgen.rare_sigs():
+            if e["what"] != "raw":
+                tx = txgen.rare_sig_tx(e["what"], e["i"])
+                toks = txgen.tokens_for(rng, tx, spell=("dec", "hex", "int"))
+                yield from both(lib_case("tx", {"op": "tx.process", "json": txgen.render(rng, toks, extra_ws=False), "secret": "%064x" % txgen.RARE_KEY},
+                                         {"cls": "rare-sig-shape", "tx": txgen.tx_to_meta(tx)}))
         for k in txgen.KINDS:
             for b in range(256):
                 tx = _base(rng, k)
